@@ -33,7 +33,20 @@ Header(cmd, fam, tr, tail) ==
     LET body == Distinct(V2!FamilySize(fam), fam * 50 + 1) \o tail
     IN  V2!Signature \o << 32 + cmd, fam * 16 + tr >> \o U16Bytes(Len(body)) \o body
 
+(* address blocks that mean something to address-aware code: both / one IPv6 address
+   IPv4-mapped, source = destination *)
+Mapped(a) == << 0, 0, 0, 0, 0, 0, 0, 0, 0, 0, 255, 255, 192, 0, 2, a >>
+SpecialBlocks ==
+    { [fam |-> 2, body |-> Mapped(1) \o Mapped(2) \o << 0, 80, 1, 187 >>],
+      [fam |-> 2, body |-> Mapped(1) \o Distinct(16, 7) \o << 0, 80, 1, 187 >>],
+      [fam |-> 2, body |-> Distinct(16, 9) \o Distinct(16, 9) \o << 1, 2, 1, 2 >>],
+      [fam |-> 1, body |-> << 10, 0, 0, 1, 10, 0, 0, 1, 0, 80, 0, 80 >>] }
+
+SpecialHeader(cmd, tr, blk, tail) ==
+    V2!Signature \o << 32 + cmd, blk.fam * 16 + tr >> \o U16Bytes(Len(blk.body) + Len(tail)) \o blk.body \o tail
+
 Bases == { Header(c, f, t, tail) : c \in Commands, f \in Families, t \in Transports, tail \in TlvTails }
+         \cup { SpecialHeader(c, 1, blk, tail) : c \in Commands, blk \in SpecialBlocks, tail \in { << >>, << 4, 0, 1, 42 >> } }
 
 (* corruptions of one element: [elem, idx, val] *)
 Corruptions(base) ==
